@@ -1333,11 +1333,19 @@ pub fn collision_cases(seed: u64, n: usize) -> Vec<(&'static str, Vec<(ItemPath,
         };
         let vt = TypeDefinition::new([TypeStatement::vftable([Function::new((Visibility::Public, "vf"), [Argument::ConstSelf])])]);
         let a = rng.range(1, 4);
-        let b = rng.range(5, 8);
+        // every other round the two declarations are word for word the same
+        let b = if i % 2 == 1 { a } else { rng.range(5, 8) };
         let (kind, m): (&'static str, Module) = match i % 5 {
             0 => (
                 "duplicate-type",
                 Module::new().with_definitions([ItemDefinition::new((Visibility::Public, "T"), fsz(a)), ItemDefinition::new((Visibility::Public, "T"), fsz(b))]),
+            ),
+            1 if a == b => (
+                "duplicate-enum",
+                Module::new().with_definitions([
+                    ItemDefinition::new((Visibility::Public, "T"), EnumDefinition::new(Type::ident("u32"), [EnumStatement::field("A")], [])),
+                    ItemDefinition::new((Visibility::Public, "T"), EnumDefinition::new(Type::ident("u32"), [EnumStatement::field("A")], [])),
+                ]),
             ),
             1 => (
                 "type-and-enum",
